@@ -53,6 +53,8 @@ func main() {
 			fmt.Printf("\nre-running %s on the current tree:\n", p)
 			os.Exit(check(p, "quick", envOr("HRVERIF_REPO", "/repo"), envOr("HRVERIF_DIR", "/verif")))
 		}
+	case "paths":
+		debugPaths(envOr("HRVERIF_REPO", "/repo"), os.Args[2])
 	case "check":
 		if len(os.Args) < 3 {
 			usage()
